@@ -14,13 +14,13 @@
 (***************************************************************************)
 EXTENDS GT
 
-CONSTANTS Ds, R1s, R2s, Offs
+CONSTANTS Ds, R1s, R2s, Offs, ExtraFK     \* ExtraFK: further factor kinds (diagonal measure / density used as the factor)
 
 n == Len(hist)
 d0 == NumD(heap[1])
 
 MeasureKinds == {"Measure", "DiagMeasure", "PDF:S", "PDF:SL", "PDF:SLD", "DiagPDF:S"}
-FactorKinds == {"Factor", "Rank1", "Linear", "Const", "Measure", "PDF:S"}
+FactorKinds == {"Factor", "Rank1", "Linear", "Const", "Measure", "PDF:S"} \cup ExtraFK
 
 NewOfKind(k, d, R, s) ==
     CASE k \in {"Measure", "DiagMeasure"} -> ANewMeasure(k, d, R, s)
